@@ -8,6 +8,7 @@ import numpy as np
 import common as C
 import fuzzylite as fl
 import gen_engine as G
+from streams import infer as S_INFER
 
 PID = "C01"
 MODULES = ["FlVerif.Props.C01"]
@@ -236,6 +237,8 @@ def feq(a, b, tol=1e-7):
 
 def key(case):
     """F3 (known): the documented pipeline fails and the ONLY deviation is the hedge leak of Consequent.modify"""
+    if case.get("stream"):
+        return case["stream"]
     if has_leak(case["engine"]):
         ok, _ = oracle(case)
         ok_leaky, _ = oracle(case, leaky=True)
@@ -245,6 +248,8 @@ def key(case):
 
 
 def oracle(case, leaky=False):
+    if case.get("stream"):
+        return S_INFER.oracle(case)    # Engine.infer_type, Variable.highest_membership / fuzzify
     desc, rows = case["engine"], case["rows"]
     impl = run_impl(desc, rows)
     ref = reference(desc, rows, leaky)
@@ -458,6 +463,8 @@ def correspond(ctx):
                         continue
                     seen_leak = True
                 mism.append({"case": case, "violation": True, "detail": detail, "what": detail})
+    # Engine.infer_type, Variable.highest_membership / fuzzify against Op/Infer.lean (models of the code ties)
+    mism += S_INFER.run(ctx)
     return mism
 
 
